@@ -31,7 +31,6 @@ func enumRadix(e *env) {
 	}
 	e.r.Extra("radix_inputs", fmt.Sprintf("%d integers x 63 bases", len(items)))
 	e.each(items, 4, func(items []any) { checkRadix(e, "radix", items) })
-	e.r.Sample(map[string]any{"section": "radix", "input": canon(items[len(items)-1]), "bases": "2..64", "functions": "to_radix from_radix"})
 }
 
 func checkRadix(e *env, fn string, items []any) {
